@@ -240,6 +240,12 @@ func (ctx *Context) fixStackMerge(pos []int) {
 				i++
 			}
 		}
+		for i < len(pos) { // merged glyphs behind the last input position
+			if i > 0 && pos[i] < action.EndPos {
+				delta++
+			}
+			i++
+		}
 		for j < len(in) {
 			in[j] -= delta
 			j++
